@@ -119,6 +119,7 @@ class Check:
         """rows of kind "sys" (one per call, grouped in behaviours by row['b']): validated by FxpTrace.tla, which replays
         every behaviour through FxpSystem's Step and compares the projection of every object after every call."""
         nproc = nproc or NPROC
+        t_start = time.time()
         groups = {}
         for r in rows:
             groups.setdefault(r['b'], []).append(r)
@@ -154,7 +155,7 @@ class Check:
                     self.transitions += r.generated
                     verdicts += [p for p in r.printed if isinstance(p, list) and p and p[0] == 'VERDICT']
                     skipped += len([p for p in r.printed if isinstance(p, list) and p and p[0] == 'SKIPPED'])
-            self.subruns.append({'label': 'FxpTrace', 'kind': 'trace-validation', 'events': len(rows), 'behaviours': len(keys),
+            self.subruns.append({'label': 'FxpTrace', 'kind': 'trace-validation', 'wall_s': round(time.time() - t_start, 1), 'events': len(rows), 'behaviours': len(keys),
                                  'files': len(files), 'verdicts': len(verdicts), 'events_skipped_after_a_mismatch': skipped})
             self.traces += len(keys)
             return verdicts
